@@ -473,11 +473,11 @@ def simulate(spec: str, cfg: str, *, num: int, depth: int, seed: int,
                 continue
             text = open(os.path.join(d, fn)).read()
             beh = []
-            for m in re.finditer(r'^\\\* <([^>]*)>\nSTATE_\d+ == \n((?:.*\n)*?)\n\n',
+            for m in re.finditer(r'^\\\* <(.*)>\nSTATE_\d+ == \n((?:.*\n)*?)\n\n',
                                  text, re.M):
                 head = m.group(1)
-                lm = re.match(r'(\w+(?:\([^)]*\))?)', head)
-                label = lm.group(1)
+                cut = re.search(r' line \d+, col \d+ to line', head)
+                label = head[:cut.start()] if cut else head
                 if label.startswith('Init'):
                     label = 'Init'
                 beh.append((label, parse_state(m.group(2))))
@@ -554,3 +554,28 @@ def validate_total(trace_spec: str, cfg: str, traces: list, *,
         else:
             out[int(m.group(1))] = (int(m.group(2)), m.group(3))
     return out, res
+
+
+def dump_states(spec: str, cfg: str, *, workers: int = 8, timeout: int = 900,
+                env=None) -> tuple[list, TLCResult]:
+    """All reachable states (plain -dump): list of state dicts."""
+    d = _scratch('states')
+    try:
+        path = os.path.join(d, 'st')
+        res = run_tlc(spec, cfg, workers=workers, timeout=timeout,
+                      extra=['-dump', path], env=env)
+        fn = path + '.dump'
+        if not os.path.exists(fn):
+            raise TLCError('no state dump: ' + (res.error or res.output[-800:]))
+        text = open(fn).read()
+    finally:
+        shutil.rmtree(d, ignore_errors=True)
+    states = []
+    for block in re.split(r'^State \d+:\n', text, flags=re.M)[1:]:
+        block = block.strip()
+        if not block:
+            continue
+        if not block.startswith('/\\'):
+            block = '/\\ ' + block
+        states.append(parse_state(block))
+    return states, res
